@@ -29,7 +29,9 @@ def kindToJ : Kind → J
 partial def treeToJ : Tree → J
   | .leaf a => atomToJ a
   | .node m its =>
-    .obj [("id", .int m.id), ("kind", kindToJ m.kind),
+    .obj [("id", .int m.id), ("kind", match m.kind, m.ref with
+            | .obj c, some tg => J.arr [.str "o", .int c, .int tg]
+            | k, _ => kindToJ k),
           ("parent", match m.parent with | none => .null | some p => .int p),
           ("path", .arr (m.path.map keyToJ)),
           ("flags", .arr [.bool m.sealed, .bool m.accW, .bool m.part]),
@@ -44,6 +46,15 @@ structure Ctx where
   nodes : List Tree          -- all nodes, roots in order, preorder
   target : Option Tree       -- resolved target container
   unsafeRefs : Bool          -- witness replay of F30: do not filter diverging references
+  guardOwn : Bool := false   -- F79 guard (only while the tree is unpatched)
+
+def believedRoot (f : Forest) (id : Nat) : Option Nat := (chainFrom f (f.ids.length + 1) id).getLast?
+
+/-- does node `id` (believe to) live in the tree written to? -/
+def sameRoot (cx : Ctx) (id : Nat) : Bool :=
+  match cx.target.bind Tree.id? with
+  | some t => (believedRoot cx.f id).isSome && believedRoot cx.f id == believedRoot cx.f t
+  | none => false
 
 def natOf (j : J) : Nat := (j.asInt?.getD 0).natAbs
 
@@ -54,7 +65,7 @@ def pickOfKind (nodes : List Tree) (fam : String) (n : Nat) : Option Tree :=
   let cands := nodes.filter fun t => match t.meta?, fam with
     | some m, "d" => m.kind == .dict
     | some m, "l" => m.kind == .list
-    | some m, "o" => isObjKind m.kind
+    | some m, "o" => m.kind == .obj 0 || m.kind == .obj 1
     | some _, _ => true
     | none, _ => false
   pickNode cands n
@@ -97,6 +108,17 @@ partial def resolveVE (cx : Ctx) (used : Used) : J → VE × Used
   | .int i => (.atom (.int i), used)
   | .arr [.str "s", .int n] => (.atom (.str n.natAbs), used)
   | .arr [.str "q"] => (.fresh, used)
+  | .arr [.str "I"] => (.node (.obj clsInferred) false false false [], used)
+  | .arr [.str "R"] => (.mkRef none, used)
+  | .arr [.str "R", .int n] =>
+    -- pg.Ref to an existing node: not to a node offered in this call, and not into the tree the
+    -- node lives in ("Self-referential object is not supported")
+    match pickNode cx.nodes n.natAbs with
+    | some (.node m _) =>
+      if used.contains m.id || (!cx.unsafeRefs && sameRoot cx m.id) then (.atom .none, used)
+      -- `Ref(Ref(x))` refers to x
+      else (.mkRef (some (match m.kind, m.ref with | .obj 2, some tg => tg | _, _ => m.id)), used)
+    | _ => (.atom .none, used)
   | .arr [.str "r", .int n] =>
     match pickNode cx.nodes n.natAbs with
     | some (.node m its) =>
@@ -104,7 +126,11 @@ partial def resolveVE (cx : Ctx) (used : Used) : J → VE × Used
         | some t => m.parent.isNone &&
             (chainFrom cx.f (cx.f.ids.length + 1) t).any (fun c => (Tree.node m its).ids.contains c)
         | none => false
-      if used.contains m.id || (diverges && !cx.unsafeRefs) then (.atom .none, used)
+      -- an offered Ref object gets a new parent: its target must live in another tree
+      let selfRef := match m.kind, m.ref with
+        | .obj 2, some tg => sameRoot cx tg
+        | _, _ => false
+      if used.contains m.id || ((diverges || selfRef) && !cx.unsafeRefs) then (.atom .none, used)
       -- a parentless node will be moved: its whole subtree is then out of reach for this call
       else if m.parent.isNone then (.ref m.id, (Tree.node m its).ids ++ used)
       else (.ref m.id, m.id :: used)
@@ -156,8 +182,14 @@ partial def resolvePath (cur : Option Tree) : List J → List Key
 /-- F79 guard: an existing child of list `dest` is not offered as an insertion into `dest`. -/
 def dropOwn (f : Forest) (cx : Ctx) (dest : Nat) (v : VE) : VE :=
   match v with
-  | .ref id => if !cx.unsafeRefs && (f.metaOf? id).any (fun m => m.parent == some dest) then .atom .none else v
+  | .ref id => if !cx.guardOwn then v else
+      if !cx.unsafeRefs && (f.metaOf? id).any (fun m => m.parent == some dest) then .atom .none else v
   | _ => v
+
+def holdsInferred (cont : Tree) (k : Key) : Bool :=
+  match getKey cont.items k with
+  | some (.node m _) => m.kind == .obj clsInferred
+  | _ => false
 
 def resolveOp (f : Forest) (j : J) : Option Op :=
   let nodes := f.nodes
@@ -166,7 +198,7 @@ def resolveOp (f : Forest) (j : J) : Option Op :=
   let fam := match name with
     | "dset" | "ddel" | "dpop" | "dpopitem" | "dclear" | "dsetdefault" | "dupdate" | "dior" => "d"
     | "lset" | "ldel" | "lappend" | "linsert" | "lextend" | "liadd" | "lpop" | "lremove" | "lclear"
-    | "lsort" | "lreverse" | "limul" | "lslice" => "l"
+    | "lsort" | "lreverse" | "limul" | "lslice" | "ldelslice" => "l"
     | "oset" => "o"
     | _ => "*"
   let target := if name == "new" then none else pickOfKind nodes fam tn
@@ -183,13 +215,17 @@ def resolveOp (f : Forest) (j : J) : Option Op :=
     | "clone" => some (.clone t ((j.getBool? "deep").getD false))
     | "dset" | "lset" => some (.setItem t (resolveKey target (j.getD "key" .null)) (v "v"))
     | "oset" =>
-      let cls := match tt.meta? with | some ⟨_, _, _, .obj c, _, _, _⟩ => c | _ => 0
+      let cls := match tt.meta? with | some ⟨_, _, _, .obj c, _, _, _, _⟩ => c | _ => 0
       some (.setItem t (Key.s (natOf (j.getD "key" (.int 0)) % (cls + 2))) (v "v"))
     | "ddel" | "ldel" => some (.delItem t (resolveKey target (j.getD "key" .null)))
     | "lappend" => some (.lAppend t (v "v"))
     | "linsert" => some (.lInsert t (resolveIdx target (j.getD "key" .null)) (dropOwn f cx t (v "v")))
     | "lextend" | "liadd" => some (.lExtend t (vs "vs"))
-    | "lpop" => some (.lPop t (resolveIdx target (j.getD "key" .null)))
+    | "lpop" =>
+      let idx := resolveIdx target (j.getD "key" .null)
+      let k := Key.i (if idx < 0 then idx + len else idx)
+      -- `pop` evaluates the value it returns; an un-inferable inferred value raises there
+      if holdsInferred tt k then none else some (.lPop t idx)
     | "lremove" => some (.lRemove t (.int ((j.getInt? "a").getD 0)))
     | "lclear" => some (.lClear t)
     | "lsort" =>
@@ -199,19 +235,17 @@ def resolveOp (f : Forest) (j : J) : Option Op :=
       some (.lSort t ranks ((j.getBool? "rev").getD false))
     | "lreverse" => some (.lReverse t)
     | "limul" => some (.lIMul t ((j.getInt? "times").getD 0))
-    | "lslice" =>
-      -- clamp like `_parse_slice` for a positive step, and never let stop fall below start
-      let clamp (x : Int) : Int := let y := max (-len) (min len x); if y < 0 then y + len else y
-      let start := clamp (resolveIdx target (j.getD "a" .null))
-      let stop0 := clamp (resolveIdx target (j.getD "b" .null))
-      let stop := max start stop0
-      let stp : Int := max 1 ((j.getInt? "step").getD 1)
-      let vals := (vs "vs").map (dropOwn f cx t)
-      let size := ((stop - start + stp - 1) / stp).toNat
-      -- extended slices: sizes must match
-      let vals := if stp > 1 then (vals.take size ++ List.replicate (size - vals.length) (VE.atom .none)) else vals
-      some (.lSetSlice t start stop stp vals)
-    | "dpop" => some (.dPop t (resolveKey target (j.getD "key" .null)))
+    | "lslice" | "ldelslice" =>
+      let optIdx (field : String) : Option Int := match j.get? field with
+        | some .null | none => none
+        | some spec => some (resolveIdx target spec)
+      let stp : Option Int := j.getInt? "step"
+      if name == "ldelslice" then some (.lDelSlice t (optIdx "a") (optIdx "b") stp)
+      else some (.lSetSlice t (optIdx "a") (optIdx "b") stp ((vs "vs").map (dropOwn f cx t)))
+    | "seal" => some (.setSeal t ((j.getBool? "flag").getD true))
+    | "dpop" =>
+      let k := resolveKey target (j.getD "key" .null)
+      if holdsInferred tt k then none else some (.dPop t k)
     | "dpopitem" => some (.dPopItem t)
     | "dclear" => some (.dClear t)
     | "dsetdefault" => some (.dSetDefault t (resolveKey target (j.getD "key" .null)) (v "v"))
@@ -259,7 +293,8 @@ def cfgOf (j : J) : Cfg :=
     { reindexOnMutate := (j.getBool? "f03").getD true,
       reindexOnReorder := (j.getBool? "f02").getD true,
       listCloneSealed := (j.getBool? "f17").getD true,
-      detachOnRemove := (j.getBool? "f33").getD true }
+      detachOnRemove := (j.getBool? "f33").getD true,
+      insertCopiesOwn := (j.getBool? "f79").getD true }
 
 def outcomeToJ : Outcome → J
   | .ok => .str "ok"
